@@ -60,7 +60,7 @@ func mergeCases(run *Run, s *Scenario, limit int) int {
 				}
 			}
 		}
-		run.Case("merge", []S{blockSchemaS(bsch), blockS(b)}, T("merged", Atom(lookupNames[res]), bodySchemaS(merged)))
+		run.Case("merge", []S{s.blockSchemaSnapshot(bsch), blockS(b)}, T("merged", Atom(lookupNames[res]), bodySchemaS(merged)))
 	})
 	return n
 }
